@@ -370,6 +370,10 @@ def single_cases(n, r=0, full=True):
         for xs in ("-", "70", "70,71,72") if full else ("70,71",):
             for k in KINDS if full else ("fwd", "inp"):
                 cases.append(f"insr {r} {p} {k} {xs}")
+        if full:
+            # long enough for the single-pass path to reallocate more than once
+            for k in ("fwd", "inp"):
+                cases.append(f"insr {r} {p} {k} 70,71,72,73,74,75")
     for p in range(n):
         cases.append(f"era1 {r} {p}")
         for how in ("idx", "it", "data"):
